@@ -3,7 +3,9 @@ package graphobs
 import (
 	"crypto/sha256"
 	stdx509 "crypto/x509"
+	"encoding/base64"
 	"encoding/hex"
+	"encoding/json"
 	"math/big"
 	"time"
 
@@ -126,6 +128,47 @@ func ConcreteOneCRL(r Rev) *mozilla.OneCRL {
 	return o
 }
 
+// ParsedOneCRL builds the same set through the real parser mozilla.Parse from the JSON wire form
+// (issuerName / subject = base64 of the DER name, serialNumber = base64 of the big-endian
+// serial, pubKeyHash = base64 of SHA-256 over the SPKI).
+func ParsedOneCRL(r Rev) *mozilla.OneCRL {
+	if !r.Has {
+		return nil
+	}
+	type rec struct {
+		IssuerName   string `json:"issuerName,omitempty"`
+		SerialNumber string `json:"serialNumber,omitempty"`
+		Subject      string `json:"subject,omitempty"`
+		PubKeyHash   string `json:"pubKeyHash,omitempty"`
+		Enabled      bool   `json:"enabled"`
+	}
+	var data []rec
+	for _, b := range r.Blocked {
+		t, ok := b.([]any)
+		if !ok || len(t) != 2 {
+			obs.Fatal("onecrl blocked entry %v", b)
+		}
+		data = append(data, rec{Subject: base64.StdEncoding.EncodeToString(pki.RawName(str(t[0]))),
+			PubKeyHash: base64.StdEncoding.EncodeToString(spkiHash(str(t[1]))), Enabled: true})
+	}
+	for _, l := range r.Listed {
+		data = append(data, rec{IssuerName: base64.StdEncoding.EncodeToString(pki.RawName(str(l[0]))),
+			SerialNumber: base64.StdEncoding.EncodeToString(big.NewInt(num(l[1])).Bytes()), Enabled: true})
+	}
+	if data == nil {
+		data = []rec{}
+	}
+	raw, err := json.Marshal(map[string]any{"data": data})
+	if err != nil {
+		obs.Fatal("onecrl json: %v", err)
+	}
+	o, err := mozilla.Parse(raw)
+	if err != nil {
+		obs.Fatal("mozilla.Parse rejects a well-formed OneCRL document: %v", err)
+	}
+	return o
+}
+
 // ConcreteCRLSet builds the real google.CRLSet of an abstract set (nil when absent).
 func ConcreteCRLSet(r Rev) *google.CRLSet {
 	if !r.Has {
@@ -160,7 +203,7 @@ func (p *Pool) chains(cs []x509.CertificateChain) [][]string {
 const VerifyLimit = 20 * time.Second
 
 // Verify runs Graph.WalkChains and Verifier.Verify on the real graph and projects the result.
-func (p *Pool) Verify(b *Builder, start AbsCert, t int, name string, one, set Rev) VObs {
+func (p *Pool) Verify(b *Builder, start AbsCert, t int, name string, one, set Rev, parsed bool) VObs {
 	one.Norm()
 	set.Norm()
 	o := VObs{Start: start.ID, T: t, Name: name, OneCRL: one, CRLSet: set, Walked: [][]string{},
@@ -179,11 +222,15 @@ func (p *Pool) Verify(b *Builder, start AbsCert, t int, name string, one, set Re
 		}
 	}
 	real := p.Get(start)
+	oneCRL := ConcreteOneCRL(one)
+	if parsed {
+		oneCRL = ParsedOneCRL(one)
+	}
 	g := obs.Guard(VerifyLimit, func() {
 		o.Walked = p.chains(b.G.WalkChains(real.Cert))
 		v := verifier.NewVerifier(b.G, nil)
 		res := v.Verify(real.Cert, verifier.VerificationOptions{VerifyTime: pki.At(t), Name: name,
-			OneCRL: ConcreteOneCRL(one), CRLSet: ConcreteCRLSet(set)})
+			OneCRL: oneCRL, CRLSet: ConcreteCRLSet(set)})
 		r := &o.Res
 		r.Current, r.Expired, r.Never = p.chains(res.CurrentChains), p.chains(res.ExpiredChains), p.chains(res.NeverValidChains)
 		r.VAE = p.chains(res.ValidAtExpirationChains)
